@@ -286,6 +286,44 @@ Definition p_digits_1_max (m : nat) (s : str) : option (str * str) :=
 
 Definition orelse {A} (a : option A) (b : option A) : option A := match a with Some _ => a | None => b end.
 
+(* ---- does the decimal text of a Float literal parse (str::parse::<f64>, correctly rounded, ties to even) to infinity?
+   txt = digits ['.' digits] [('e'|'E') ['+'|'-'] digits]  (underscores already removed).
+   value = M * 10^E with M the integer and fraction digits read as one number, E = exponent - number of fraction digits.
+   The largest finite double is 2^1024 - 2^971 (odd mantissa); the midpoint to 2^1024 rounds up, so the text is
+   non-finite  iff  value >= 2^1024 - 2^970.  Exponents are clamped before any power is computed. *)
+Definition f64_inf_threshold : N := N.shiftl 1 1024 - N.shiftl 1 970.
+Definition float_nonfinite (txt : str) : bool :=
+  let (ip, r0) := span_while is_digit txt in
+  let '(fr, r1) := match eat 46 r0 with Some r => span_while is_digit r | None => ([], r0) end in
+  let '(neg, ex) :=
+    match r1 with
+    | e :: r =>
+        if (e =? 101) || (e =? 69) then
+          match r with
+          | sg :: r' => if sg =? 45 then (true, fst (span_while is_digit r'))
+                        else if sg =? 43 then (false, fst (span_while is_digit r'))
+                        else (false, fst (span_while is_digit r))
+          | [] => (false, [])
+          end
+        else (false, [])
+    | [] => (false, [])
+    end in
+  let m := digits_val 10 (ip ++ fr) in
+  let nd := N.of_nat (List.length (ip ++ fr)) in
+  let fl := N.of_nat (List.length fr) in
+  let x := digits_val 10 ex in
+  if m =? 0 then false
+  else if neg then
+    (* E = -(x + fl) < 0: value = m / 10^(x+fl) *)
+    let k := x + fl in
+    if nd <? k then false else f64_inf_threshold * N.pow 10 k <=? m
+  else if fl <=? x then
+    let e := x - fl in
+    if 400 <? e then true else f64_inf_threshold <=? m * N.pow 10 e
+  else
+    let k := fl - x in
+    if nd <? k then false else f64_inf_threshold * N.pow 10 k <=? m.
+
 Section Lexer.
   Variable is_alpha : chr -> bool.   (* char::is_alphabetic *)
   Variable is_alnum : chr -> bool.   (* char::is_alphanumeric *)
@@ -424,7 +462,8 @@ Section Lexer.
         | Some (u, r') =>
             if end_expr r' then
               let v := dec_val (no_us d) in
-              Some (LVU (if v <=? i64_max then v else 1) u, r')
+              (* try_map: a count that does not fit an i64 is not an interval literal (the alternative fails) *)
+              if v <=? i64_max then Some (LVU v u, r') else None
             else None
         | None => None
         end
@@ -627,10 +666,18 @@ Section Lexer.
 
   Definition start_token : token := {| tkind := KStart; tstart := 0; tend := 0 |}.
 
-  (* lex_source(): None = Err(errors) (no tokens at all), Some = Ok(insert_start(tokens)) *)
+  (* non_finite_literals(): a Float token whose text str::parse::<f64> maps to infinity *)
+  Definition tok_finite (t : token) : bool :=
+    match tkind t with
+    | KLiteral (LFloat txt) => negb (float_nonfinite txt)
+    | _ => true
+    end.
+
+  (* lex_source(): None = Err(errors) (no tokens at all), Some = Ok(insert_start(tokens)).
+     After the token loop, a source containing a non-finite number literal is rejected as a whole. *)
   Definition lex (s : str) : option (list token) :=
     match lex_loop (S (List.length s)) 0 s with
-    | Some ts => Some (start_token :: ts)
+    | Some ts => if forallb tok_finite ts then Some (start_token :: ts) else None
     | None => None
     end.
 End Lexer.
